@@ -159,6 +159,8 @@ def bounded(ctx, b):
 def run(ctx):
     ctx.prove("scc.CaptionCreator.correct_last_timing", correct_last_timing, functions=[CaptionCreator.correct_last_timing],
               setup_interp=setup, crosscheck=False)
+    import props.C06_commands as CM
+    CM.prove_commands(ctx)
     ctx.bounded("programs", "roll-up programs (depth 2-4, fixed and moving base rows incl. one row down / up per line, 1-8 "
                 "rows of text, single / doubled codes, drop / non-drop, gaps 0-90 frames, mode code on every line or only "
                 "once) and paint-on programs (1-3 buffers of 1-3 adjacent or non-adjacent rows): every transmitted row "
